@@ -135,37 +135,30 @@ theorem C12.iff (ty : CTy) (v v' : Val) : constCheck ty v = .ok v' ↔ Spec.cons
             exact ⟨⟨⟨z, rfl⟩, (inRange_uint n m z).mpr hz⟩, rfl⟩
         | str cs =>
           simp only [constCheck, hwf, Bool.not_true, Bool.false_eq_true, ↓reduceIte, Spec.constOk]
-          by_cases hs : cs.any isSurrogate = true
-          · simp only [hs, ↓reduceIte, err_ne_ok, false_iff, not_and, not_exists]
-            rintro _ c rfl hc
-            simp [isSurrogate] at hs; omega
-          · simp only [hs, Bool.false_eq_true, ↓reduceIte]
-            by_cases hl : (cs.map utf8Len).sum = 1
-            · obtain ⟨c, rfl, hc⟩ := (utf8_sum_eq_one cs).mp hl
-              have hl' : (([c].map utf8Len).sum != 1) = false := by simpa using hl
-              simp only [hl', Bool.false_eq_true, ↓reduceIte]
-              by_cases h8 : n = 8
-              · subst h8
-                simp only [bne_self_eq_false, Bool.false_eq_true, ↓reduceIte, Except.ok.injEq, true_and]
-                constructor
-                · rintro rfl; exact ⟨c, rfl, hc, rfl⟩
-                · rintro ⟨c', hc', _, rfl⟩
-                  simp only [List.cons.injEq, and_true] at hc'; subst hc'; rfl
-              · have h8' : (n != 8) = true := by simpa using h8
-                simp only [h8', ↓reduceIte, inval, err_ne_ok, false_iff, not_and]
-                intro h; exact absurd h h8
-            · have hl' : ((cs.map utf8Len).sum != 1) = true := by simpa using hl
-              simp only [hl', ↓reduceIte, inval, err_ne_ok, false_iff, not_and, not_exists]
-              rintro _ c rfl hc _
-              exact hl ((utf8_sum_eq_one [c]).mpr ⟨c, rfl, hc⟩)
+          by_cases hl : (cs.map utf8Len).sum = 1
+          · obtain ⟨c, rfl, hc⟩ := (utf8_sum_eq_one cs).mp hl
+            have hl' : (([c].map utf8Len).sum != 1) = false := by simpa using hl
+            simp only [hl', Bool.false_eq_true, ↓reduceIte]
+            by_cases h8 : n = 8
+            · subst h8
+              simp only [bne_self_eq_false, Bool.false_eq_true, ↓reduceIte, Except.ok.injEq, true_and]
+              constructor
+              · rintro rfl; exact ⟨c, rfl, hc, rfl⟩
+              · rintro ⟨c', hc', _, rfl⟩
+                simp only [List.cons.injEq, and_true] at hc'; subst hc'; rfl
+            · have h8' : (n != 8) = true := by simpa using h8
+              simp only [h8', ↓reduceIte, inval, err_ne_ok, false_iff, not_and]
+              intro h; exact absurd h h8
+          · have hl' : ((cs.map utf8Len).sum != 1) = true := by simpa using hl
+            simp only [hl', ↓reduceIte, inval, err_ne_ok, false_iff, not_and, not_exists]
+            rintro _ c rfl hc _
+            exact hl ((utf8_sum_eq_one [c]).mpr ⟨c, rfl, hc⟩)
       | int n m =>
         obtain ⟨hn, rfl⟩ := (wf_int n m).mp hwf
         have hn1 : 1 ≤ n := by omega
         cases s with
         | bool b => simp [constCheck, Spec.constOk, inval, hwf]
-        | str cs =>
-          simp only [constCheck, hwf, Bool.not_true, Bool.false_eq_true, ↓reduceIte, Spec.constOk, iff_false]
-          split <;> simp [inval]
+        | str cs => simp [constCheck, Spec.constOk, inval, hwf]
         | rat q =>
           simp only [constCheck, hwf, Bool.not_true, Bool.false_eq_true, ↓reduceIte, Spec.constOk,
             ok_ite _ _ _ _ (inval_ne_ok _), Bool.and_eq_true, isInt'_iff]
